@@ -227,7 +227,11 @@ EXTRA_TEXT = {
            "emitter/parser model (single), hence chain_iface / chains_commute_iface for chains of any length; the closure of the region under hops remains a hypothesis.",
     "C08": "Added later (Properties/C08Whole.lean): on C01Whole.InDomain the ReST hop emit->parse of the model is at its fixpoint after ONE round for every number of parameters "
            "and all flags (round2, hop_hop), hence for every further round (all_rounds), although the second text may differ from the first (inferred :type lines); two "
-           "negations show where the domain is needed.",
+           "negations show where the domain is needed. Properties/C08Google.lean, C08Numpy.lean: the same for the Google and NumPy styles, derived from the C01Google / C01Numpy "
+           "round trips - round2_*, hop_hop_*, all_rounds_* for interfaces of any size on InDomainG / InDomainN WITHOUT a require_default latch victim (NoVictim, decidable; always "
+           "true with emit_default_doc=False); the unrestricted statement is proved FALSE of the model (C08_google_full_false, C08_numpy_full_false: round 2 documents the default "
+           "the latch invented in round 1) and the real code reproduces that drift (known findings). The model hops hopG / hopN are run by the driver round after round and compared "
+           "with the real emit->parse hop on every generated in-domain interface.",
     "C14": "Added later (Model/DocGN.lean, Properties/C14GN.lean): a character-level port of the Google and NumPy scan and parse phases with the same theorem for EVERY text "
            "and both styles (parseGN_wf, parseDocstring_wf: distinct names proved from the insertion discipline, no leading asterisk), tied to the real _scan_phase / "
            "_parse_phase / parse_docstring by exact comparison of results and exception classes (about 11 percent abstentions where literal_eval / float() / prose type "
@@ -250,7 +254,8 @@ NOTE_OVERRIDE = {
     "C03": "Partial: for docstring / JSON-schema / SQLAlchemy hops the premises are observed on the real pipeline only; for the code formats the closure hypothesis (what the "
            "docstring layer answers for the next docstring) is not proved. 13 known findings record where the unchanged code breaks a premise. Trusted: Lean kernel + 3 axioms, "
            "the harness; the C02 model is tied to the code by the C02 check.",
-    "C08": "Partial: the whole-docstring fixpoint is proved for ReST on the model only (which omits prose type inference); the other ten formats are oracle + correspondence. "
+    "C08": "Partial: the whole-docstring fixpoint is proved for the three docstring styles on the model only (which omits prose type inference; Google/NumPy without return entries, "
+           "str/None defaults and latch victims); the other eight formats are oracle + correspondence. "
            "About 35 narrowly-signed known findings record where the unchanged code drifts (header whitespace, Google/NumPy latch and return entries, None defaults, announce "
            "variants, multi-line Google descriptions, container types through argparse, ...). Trusted: Lean kernel + 3 axioms, the harness.",
     "C14": "Partial: theorems cover the three docstring parsers' name discipline; 'type parses as a Python expression', 'description is a string' and 'every signature "
